@@ -11,6 +11,8 @@ CLAIMED = {
          TRUST + "induction lemma L-tree (DESIGN.md 5.3) is not machine-checked; descent loops and the insert/find bodies are covered only by the bounded obligations so far; std::allocator assumed to return fresh storage.", "DESIGN.md 6 (C08)"),
  "C10": ("proof", "The set operations are proved over the whole 64-bit domain with a symbolic element; name-to-set mapping, the 20 named accessors and decomposition are proved on the lowered real code against the constant tables clang evaluates from the source, with table loops fully unwound and the subset of basic names symbolic (all 2^18 / 2^3 subsets at once); unknown names: normal return is proved unreachable.",
          TRUST + "std::vector::push_back modelled as append; the Lexicon object's own state is arbitrary (these members read none of it); mutable static state introduced under these functions makes the run undecided and falls back to a native sweep.", "DESIGN.md 6 (C10)"),
+ "C03": ("proof", "arena::allocate is proved against a full contract (block size, writability, carved from free space or from a new object, representation invariant, frame) for every length up to 2^40; make_string against that contract and an assumed std::copy; the reserved-word lookup for every word of <= 24 arbitrary bytes against the constant table clang evaluates; intern from an arbitrary bucket state over assumed std::map/std::hash/forward_list contracts.",
+         TRUST + "library contracts of DESIGN.md 5.2 (operator new, std::copy, u8string_view comparison, std::hash, std::map, forward_list, find_if, lower_bound) are assumed; bucket chains of <= 2 earlier words; L-history lifts the single-call contracts to all interning histories.", "DESIGN.md 6 (C03)"),
 }
 m = {"version": 1,
  "setup_cmd": "python3 -c \"import sys; sys.path.insert(0,'lib'); import ipv; ipv.ensure_cxx2c()\"",
